@@ -36,6 +36,7 @@ static llvm::cl::opt<bool> LineDirectives("line-directives", llvm::cl::desc("emi
 static llvm::cl::list<std::string> ExtraEntries("entry", llvm::cl::desc("additional entry functions by qualified-name prefix"), llvm::cl::cat(Cat));
 
 static ASTContext* gC = nullptr;
+static std::vector<std::string> gCensus;
 [[noreturn]] static void die(const std::string& m, const Stmt* s = nullptr) {
   llvm::errs() << "nop2c: UNSUPPORTED: " << m << "\n";
   if (s && gC) {
@@ -357,6 +358,11 @@ struct Lower {
       const Expr* I = Def->getInit();
       Expr::EvalResult R;
       if (T->isIntegralOrEnumerationType() && I->EvaluateAsInt(R, C)) init = " = " + lit(R.Val.getInt(), T);
+      else if (const APValue* AV = (T->isRecordType() || T->isArrayType()) ? Def->evaluateValue() : nullptr) {
+        // constant-initialised object (e.g. ThreadLocal's static thread_local Optional<T>, whose
+        // default constructor is constexpr): print the value the compiler computed
+        init = " = " + apvalueInit(*AV, T);
+      }
       else if (auto* CE = dyn_cast<CXXConstructExpr>(I->IgnoreImplicit())) {
         if (!(CE->getConstructor()->isDefaultConstructor())) dieD("global with non-default constructor " + VD->getQualifiedNameAsString(), VD);
         // static storage: zero-initialised, then default-constructed; for the types libnop
@@ -377,6 +383,50 @@ struct Lower {
                          "\",\"thread_local\":" + (tls ? "true" : "false") + ",\"static_local\":" + (VD->isStaticLocal() ? "true" : "false") +
                          ",\"const\":" + (T.isConstQualified() ? "true" : "false") + ",\"loc\":\"" + jsonEsc(loc(VD->getLocation())) + "\"}");
     return n;
+  }
+  std::string apvalueInit(const APValue& V, QualType T) {
+    T = T.getCanonicalType();
+    switch (V.getKind()) {
+      case APValue::Int: return lit(V.getInt(), T);
+      case APValue::Indeterminate: case APValue::None: return "0";
+      case APValue::Struct: {
+        const RecordDecl* RD = T->getAsRecordDecl();
+        needRecord(RD);
+        std::string s = "{";
+        bool any = false;
+        if (auto* CX = dyn_cast<CXXRecordDecl>(RD)) {
+          unsigned bi = 0;
+          for (auto& B : CX->bases()) {
+            s += std::string(any ? ", " : "") + ".__b" + std::to_string(bi) + " = " + apvalueInit(V.getStructBase(bi), B.getType());
+            bi++;
+            any = true;
+          }
+        }
+        unsigned fi = 0;
+        for (auto* F : RD->fields()) {
+          s += std::string(any ? ", " : "") + "." + fieldName(F) + " = " + apvalueInit(V.getStructField(fi), F->getType());
+          fi++;
+          any = true;
+        }
+        if (!any) s += "0";
+        return s + "}";
+      }
+      case APValue::Union: {
+        const FieldDecl* F = V.getUnionField();
+        needRecord(T->getAsRecordDecl());
+        if (!F) return "{0}";
+        return "{." + fieldName(F) + " = " + apvalueInit(V.getUnionValue(), F->getType()) + "}";
+      }
+      case APValue::Array: {
+        auto* AT = C.getAsConstantArrayType(T);
+        std::string s = "{";
+        unsigned n = V.getArraySize(), ni = V.getArrayInitializedElts();
+        for (unsigned i = 0; i < n; i++)
+          s += std::string(i ? ", " : "") + apvalueInit(i < ni ? V.getArrayInitializedElt(i) : V.getArrayFiller(), AT->getElementType());
+        return s + "}";
+      }
+      default: die("constant initialiser kind in global");
+    }
   }
   struct PendingCtor { const VarDecl* VD; const CXXConstructExpr* CE; };
   std::vector<PendingCtor> pendingGlobalCtors;
@@ -1301,7 +1351,7 @@ struct Lower {
       llvm::raw_fd_ostream os(MapFile, EC);
       if (EC) { llvm::errs() << "cannot write " << MapFile << "\n"; exit(5); }
       auto join = [](const std::vector<std::string>& v) { std::string s; for (auto& x : v) s += (s.empty() ? "\n  " : ",\n  ") + x; return s; };
-      os << "{\"functions\":[" << join(mapFns) << "],\n\"records\":[" << join(mapRecs) << "],\n\"globals\":[" << join(mapGlobals) << "]}\n";
+      os << "{\"functions\":[" << join(mapFns) << "],\n\"records\":[" << join(mapRecs) << "],\n\"globals\":[" << join(mapGlobals) << "],\n\"census\":[" << join(gCensus) << "]}\n";
     }
   }
 };
@@ -1325,12 +1375,45 @@ struct V : RecursiveASTVisitor<V> {
     return true;
   }
 };
+// Storage census (C19): every variable with static or thread storage duration in the TU (including
+// static locals and static data members of instantiated templates), whether or not lowered code uses it.
+struct CensusV : RecursiveASTVisitor<CensusV> {
+  ASTContext& C;
+  std::vector<std::string> out;
+  std::unique_ptr<MangleContext> MC;
+  CensusV(ASTContext& c) : C(c), MC(ItaniumMangleContext::create(c, c.getDiagnostics())) {}
+  bool shouldVisitTemplateInstantiations() const { return true; }
+  bool VisitVarDecl(VarDecl* VD) {
+    if (!VD->hasGlobalStorage() || VD->getDeclContext()->isDependentContext() || !VD->isThisDeclarationADefinition()) return true;
+    if (isa<ParmVarDecl>(VD)) return true;
+    if (VD->getType()->isDependentType()) return true;
+    auto& SM = C.getSourceManager();
+    PresumedLoc P = SM.getPresumedLoc(SM.getExpansionLoc(VD->getLocation()));
+    if (P.isInvalid()) return true;
+    std::string file = P.getFilename();
+    std::string m;
+    {
+      llvm::raw_string_ostream os(m);
+      if (VD->isExternC()) os << VD->getName();
+      else MC->mangleName(GlobalDecl(VD), os);
+    }
+    PrintingPolicy PP(C.getLangOpts());
+    bool isConst = VD->getType().isConstQualified() || VD->isConstexpr();
+    out.push_back("{\"cxx\":\"" + jsonEsc(VD->getQualifiedNameAsString()) + "\",\"symbol\":\"" + jsonEsc(m) + "\",\"type\":\"" + jsonEsc(VD->getType().getAsString(PP)) +
+                  "\",\"thread_local\":" + (VD->getTLSKind() != VarDecl::TLS_None ? "true" : "false") + ",\"static_local\":" + (VD->isStaticLocal() ? "true" : "false") +
+                  ",\"const\":" + (isConst ? "true" : "false") + ",\"file\":\"" + jsonEsc(file) + "\",\"line\":" + std::to_string(P.getLine()) + "}");
+    return true;
+  }
+};
 struct Cn : ASTConsumer {
   void HandleTranslationUnit(ASTContext& C) override {
     if (C.getDiagnostics().hasErrorOccurred()) exit(4);
     gC = &C;
     V v(C);
     v.TraverseDecl(C.getTranslationUnitDecl());
+    CensusV cv(C);
+    cv.TraverseDecl(C.getTranslationUnitDecl());
+    gCensus = cv.out;
     Lower L(C);
     L.run(v.found);
   }
